@@ -263,10 +263,10 @@ impl Session {
             "generators": gens,
             "impl_outcome_classes": classes,
             "error_kind_agreement": {"same": err_kind_same, "different": err_kind_diff, "samples": err_kind_diff_samples},
-            "disagreements": disagreements.iter().take(50).map(|d| serde_json::json!({
+            "disagreements": disagreements.iter().take(2000).map(|d| serde_json::json!({
                 "gen": d.gen, "req": d.req, "impl": d.imp, "model": d.model})).collect::<Vec<_>>(),
             "n_disagreements": disagreements.len(),
-            "oracle_failures": oracle_fails.iter().take(50).map(|c| serde_json::json!({
+            "oracle_failures": oracle_fails.iter().take(5000).map(|c| serde_json::json!({
                 "gen": c.gen, "req": c.req, "impl": c.imp, "why": c.oracle_fail})).collect::<Vec<_>>(),
             "n_oracle_failures": oracle_fails.len(),
             "samples": samples,
